@@ -13,19 +13,19 @@ REPO3 = ['merge', 'value', 'yaml']
 PYEXACT = ['py/none', 'py/bool', 'py/str', 'py/unicode', 'py/bytes', 'py/int', 'py/long', 'py/float', 'py/complex',
            'py/list', 'py/tuple', 'py/dict']
 PYPREFIX = ['py/name:', 'py/module:', 'py/object:', 'py/object/new:', 'py/object/apply:']
-LOOKALIKE = ['py/name', 'py/', 'py/objectx:', 'py/object/applyx:', 'lpy/object/apply:', 'unknown', 'local']
-ALLNAMES = ['res', 'rescls', 'noattr', 'lazy', 'builtin', 'unimp', 'unimpsub', 'missing', 'iter', 'subunimp']
+LOOKALIKE = ['py/name', 'py/', 'py/objectx:', 'py/object/applyx:', 'lpy/object/apply:', 'unknown', 'local', 'localpct']
+ALLNAMES = ['res', 'rescls', 'noattr', 'lazy', 'builtin', 'unimp', 'unimpsub', 'missing', 'iter', 'subunimp', 'pct']
 
 BASETEXT = {b: Y + b for b in CORE12 + REPO3 + ['unknown']}
 BASETEXT.update({b: Y + 'python/' + b[3:] for b in PYEXACT + PYPREFIX + ['py/name', 'py/', 'py/objectx:', 'py/object/applyx:']})
-BASETEXT.update({'lpy/object/apply:': '!python/object/apply:', 'local': '!foo'})
+BASETEXT.update({'lpy/object/apply:': '!python/object/apply:', 'local': '!foo', 'localpct': '!foo%25s'})
 NAMETEXT = {'res': 'verif_canary.fire', 'rescls': 'verif_canary.Obj', 'noattr': 'verif_canary.nosuch',
             'lazy': 'verif_canary.lazyattr', 'builtin': 'vcanary_bfire', 'unimp': 'verif_unimported.fire',
             'unimpsub': 'verif_unimp_pkg.sub.fire', 'missing': 'verif_no_such_mod.fire', 'iter': 'verif_canary.ITER',
-            'subunimp': 'verif_pkg.plugin', 'e': ''}
+            'subunimp': 'verif_pkg.plugin', 'pct': 'verif_canary.f%25s', 'e': ''}
 MODTEXT = {'res': 'verif_canary', 'rescls': 'verif_canary', 'noattr': 'verif_canary', 'lazy': 'verif_canary',
            'builtin': 'builtins', 'unimp': 'verif_unimported', 'unimpsub': 'verif_unimp_pkg.sub',
-           'missing': 'verif_no_such_mod', 'iter': 'verif_canary', 'subunimp': 'verif_pkg', 'e': ''}
+           'missing': 'verif_no_such_mod', 'iter': 'verif_canary', 'subunimp': 'verif_pkg', 'pct': 'verif_canary', 'e': ''}
 GOOD = {'null': '~', 'bool': 'yes', 'int': '12', 'float': '1.5', 'binary': 'aGk=', 'timestamp': '2001-01-01',
         'py/none': 'null', 'py/bool': 'true', 'py/bytes': 'aGk=', 'py/int': '7', 'py/long': '8', 'py/float': '2.5',
         'py/complex': '1+2j'}
@@ -33,7 +33,7 @@ GOOD = {'null': '~', 'bool': 'yes', 'int': '12', 'float': '1.5', 'binary': 'aGk=
 # loader "classes" of the model -> real entry points, in the order they are exercised on every document
 # (the unsafe classes go first on purpose: state they leave behind must not leak into the confined classes)
 ENTRY = [('Unsafe', 'UnsafeLoader'), ('Unsafe', 'CUnsafeLoader'), ('Full', 'FullLoader'), ('Full', 'CFullLoader'),
-         ('Full', 'full_load'), ('Safe', 'SafeLoader'), ('Safe', 'CSafeLoader'), ('Safe', 'safe_load'),
+         ('Full', 'full_load'), ('Full', 'full_load_all'), ('Safe', 'SafeLoader'), ('Safe', 'CSafeLoader'), ('Safe', 'safe_load'),
          ('Safe', 'safe_load_all'), ('Base', 'BaseLoader'), ('Base', 'CBaseLoader')]
 
 
@@ -95,6 +95,10 @@ def customise(yaml):
             return verif_canary.fire
     yaml.UnsafeLoader.add_constructor('!verif_uctor', lambda loader, node: verif_canary.fire())
     yaml.UnsafeLoader.add_multi_constructor('!verif_umulti:', lambda loader, suffix, node: verif_canary.fire())
+    # ... and uses the module-level helpers without Loader= (they register on Loader, FullLoader, UnsafeLoader): the
+    # registered functions are the application's own and harmless; the shipped tables must otherwise stay as they are
+    yaml.add_constructor('!verif_modctor', lambda loader, node: None)
+    yaml.add_multi_constructor('!verif_modmulti:', lambda loader, suffix, node: None)
     return VerifYObj
 
 
@@ -244,6 +248,11 @@ class Instruments:
             return self.observe_once(fn)
         if entry == 'full_load':
             return self.observe_once(lambda: yaml.full_load(text))
+        if entry == 'full_load_all':
+            def fn2():
+                res = list(yaml.full_load_all(text))
+                return res[0] if len(res) == 1 else res
+            return self.observe_once(fn2)
         L = getattr(yaml, entry)
         return self.observe_once(lambda: yaml.load(text, Loader=L))
 
@@ -411,7 +420,7 @@ def corpus_work(args):
         if req is None:
             continue
         for c, entry in ENTRY:
-            if c not in classes or entry in ('safe_load', 'full_load'):
+            if c not in classes or entry in ('safe_load', 'full_load', 'full_load_all'):
                 continue
             if entry.endswith('Loader'):
                 L = getattr(yaml, entry)
